@@ -108,11 +108,29 @@ def _cos_F(pi, xi):       # p0/p1 sin(p1 x) + p2 x
     return N('add', N('mul', N('div', pi[0], pi[1]), N('sin', N('mul', pi[1], xi))), N('mul', pi[2], xi))
 
 
+W_ = 1.3
+
+
+def _linw_cos_F(pi, xi):  # int (p0 + p1 x) cos(W x) = p0 sin(Wx)/W + p1 (cos(Wx)/W^2 + x sin(Wx)/W)
+    wx = N('mul', C(W_), xi)
+    return N('add', N('mul', pi[0], N('div', N('sin', wx), C(W_))),
+             N('mul', pi[1], N('add', N('div', N('cos', wx), C(W_ * W_)), N('div', N('mul', xi, N('sin', wx)), C(W_)))))
+
+
+def _linw_sin_F(pi, xi):  # int (p0 + p1 x) sin(W x) = -p0 cos(Wx)/W + p1 (sin(Wx)/W^2 - x cos(Wx)/W)
+    wx = N('mul', C(W_), xi)
+    return N('add', N('neg', N('mul', pi[0], N('div', N('cos', wx), C(W_)))),
+             N('mul', pi[1], N('sub', N('div', N('sin', wx), C(W_ * W_)), N('div', N('mul', xi, N('cos', wx)), C(W_)))))
+
+
 QUADS = [
     ('poly', lambda p, x: p[0] + p[1] * x + p[2] * x ** 2, 3, _poly_F, [0.7, -1.2, 0.4]),
     ('exp', lambda p, x: p[0] * anp.exp(p[1] * x), 2, _exp_F, [1.3, -0.8]),
     ('sin', lambda p, x: p[0] * anp.sin(p[1] * x), 2, _sin_F, [0.9, 1.7]),
     ('cos', lambda p, x: p[0] * anp.cos(p[1] * x) + p[2], 3, _cos_F, [1.1, 0.6, 0.3]),
+    # scipy's own keywords reach every integral of the call: the weighted integral of a linear function, observable parameters, plain limits
+    ('linwcos', lambda p, x: p[0] + p[1] * x, 2, _linw_cos_F, [0.7, -1.2], {'weight': 'cos', 'wvar': W_}),
+    ('linwsin', lambda p, x: p[0] + p[1] * x, 2, _linw_sin_F, [0.9, 0.5], {'weight': 'sin', 'wvar': W_}),
 ]
 
 
@@ -139,10 +157,14 @@ def _plain(call):
 
 def quad_cases(rng, ctx, full):
     cases = []
-    for name, f, npar, Fb, pv in QUADS:
+    for entry in QUADS:
+        name, f, npar, Fb, pv = entry[:5]
+        qkw = entry[5] if len(entry) > 5 else {}
         slots = npar + 2
         subsets = list(itertools.product([False, True], repeat=slots))
-        if not full:
+        if qkw:
+            subsets = [s for s in subsets if not s[-1] and not s[-2] and any(s)]      # weighted: the limits stay plain numbers
+        if not full and not qkw:
             subsets = [s for k, s in enumerate(subsets) if k % 3 == 0 or sum(s) in (0, slots)]
         for sub in subsets:
             cls = str(rng.choice(['same', 'gapped', 'second_ensemble', 'multi_replica']))
@@ -154,6 +176,8 @@ def quad_cases(rng, ctx, full):
             obs = []
             if nobs:
                 obs = _obs(rng, cls, [1.0] * nobs, k=nobs)
+            if sub[slots - 1] and not qkw and rng.random() < 0.15:
+                b = a                      # limits with the same central value: the integral vanishes, its fluctuations do not
             vals = pvals + [a, b]
             args, leaves, ops = [], [], []
             oi = 0
@@ -185,7 +209,7 @@ def quad_cases(rng, ctx, full):
             out = None
             try:
                 with np.errstate(all='ignore'):
-                    out = pe.integrate.quad(f, p_args, a_arg, b_arg)
+                    out = pe.integrate.quad(f, p_args, a_arg, b_arg, **qkw)
                 first = out[0]
                 res = project_any(first)
             except Exception as e:  # noqa: BLE001
